@@ -59,6 +59,17 @@ func parserCases(c *core.Ctx, unit int, filter func(lib.Parser) bool, fn func(pc
 		}
 		p := p
 		n := unit * weight(p.Kind)
+		// lattice corners: maximal counts, longest strings, largest keys (and one mutation of each)
+		c.Job("corner/"+p.ID(), 2, func(i int, r *core.Rand) {
+			for _, cn := range gen.Corners(core.NewRand(c.Seed, "corners", i)) {
+				if cn.Kind != p.Kind {
+					continue
+				}
+				fn(pcase{p: p, in: cn.Bytes, class: "corner", shape: gen.Shape{"corner": cn.Name}})
+				m, kind := gen.Mutate(r, gen.Case{Bytes: cn.Bytes}, nil)
+				fn(pcase{p: p, in: m, class: "mutated:corner+" + kind, shape: gen.Shape{"corner": cn.Name}, base: cn.Bytes})
+			}
+		})
 		c.Job("wf/"+p.ID(), n, func(i int, r *core.Rand) {
 			cs := gen.WellFormed(p.Kind, p.Arg, r)
 			fn(pcase{p: p, in: cs.Bytes, class: "wellformed", shape: cs.Shape})
